@@ -725,10 +725,11 @@ def oracle(case, obs):
 
 
 # ------------------------------------------------------------------ generators
-MSGS = ["BUG-1 fix", "BUG-12 other", "BUG-2", "fix BUG-1", "Merge branch", "misc", "bug-1 lower", "BUG-1\nsecond line", "x", ""]
+MSGS = ["BUG-1 fix", "BUG-12 other", "BUG-2", "fix BUG-1", "Merge branch", "misc", "bug-1 lower", "BUG-1\nsecond line", "x", "",
+        "subject\n\nBUG-1 only in the body", "Merge\nBUG-2"]
 TEXTS = ["BUG-1", "BUG-1", "BUG-1", "BUG", "BUG-2", "BUG-12", "nothing", "", "fix", "1"]
 REL_NAMES = ["1.2", "1.10", "1.9", "2.0", "10.250", "10.260", "9", "10", "01.2", "1-2", "1_2", "abc", "1.2-rc1", "1.2.3",
-             "2", "B7", "b7", "10.250.1", "7.x", "x.7", "1..2", "1.2/hotfix"]
+             "2", "B7", "b7", "10.250.1", "7.x", "x.7", "1..2", "1.2/hotfix", "1.2.9", "1.2.10", "10.250.2", "1.2.3.10", "1.2.3.9"]
 
 
 def gen_history(rng, n, *, p_merge=0.2, p_root=0.05, p_tag=0.25, p_match=0.35, nbranches=None, spread=None,
@@ -770,7 +771,7 @@ def gen_history(rng, n, *, p_merge=0.2, p_root=0.05, p_tag=0.25, p_match=0.35, n
             children[p] += 1
         msg = rng.choice(MSGS)
         if rng.random() < p_match and text:
-            msg = rng.choice(["", "re "]) + text + rng.choice(["", " done", "7"])
+            msg = rng.choice(["", "re ", "subject line\n\nbody: "]) + text + rng.choice(["", " done", "7"])
         spec = {"p": ps, "m": msg, "t": T0 + times[i]}
         if rng.random() < p_tag:
             tags = []
@@ -843,7 +844,9 @@ def gen_cases(rng, tier):
              "origin/release/ABA12.5U1", "origin/master", "origin/release/1.2", "origin/release/01.2",
              "origin/release/1-2", "origin/release/1.2.0", "origin/release/+5", "origin/release/5",
              "origin/release/1..2", "", "/", "origin/release/1 2", "zzzzzzzzzzzzzz/release/1", "origin/release/z",
-             "origin/release/12a", "origin/release/a12", "origin/release/1\t2", "origin/release/१२"]
+             "origin/release/12a", "origin/release/a12", "origin/release/1\t2", "origin/release/१२",
+             "origin/release/1.2.9", "origin/release/1.2.10", "origin/release/1.2.3.9", "origin/release/1.2.3.10",
+             "origin/release/10.250.1", "origin/release/10.250.2", "origin/release/10.250-2", "origin/release/10_250_10"]
     for _ in range(300 if big else 60):
         names.append("origin/release/" + "".join(rng.choice(alphabet) for _ in range(rng.randrange(0, 8))))
     for nm in names:
